@@ -88,9 +88,14 @@ class ListTensor(Operator):
             and sub_equals(expressions, 0, 0)
         ):
             indices = [sub(e, 0, 1).indices() for e in expressions]
+            # Each component must be v[k, i_1, ..., i_n] mapped to tensor axes
+            # by exactly (i_1, ..., i_n), all distinct and in the same order
             if all(
-                i[0] == k and all(isinstance(subindex, Index) for subindex in i[1:])
-                for k, i in enumerate(indices)
+                i[0] == k
+                and all(isinstance(subindex, Index) for subindex in i[1:])
+                and len(set(i[1:])) == len(i[1:])
+                and sub(e, 1).indices() == i[1:]
+                for k, (e, i) in enumerate(zip(expressions, indices))
             ):
                 return sub(e0, 0, 0)
 
